@@ -6,6 +6,23 @@ props = [json.loads(l) for l in open(os.path.join(V, "properties.jsonl"))]
 
 # property -> (level text, level note, technique, design_ref)
 CLAIMED = {
+ "C05": ("TLC (MC_C05) models the two impls generated for a concrete-dependency function (impl Tr for C calling the function; nested trait-mode "
+         "invocation giving impl<T: Tr + Sync + 'static> Tr for Impl<T> forwarding to T), checks availability through the Resolve fix-point against the "
+         "statement (C, Impl<C>, App with a hand-written impl, Impl<App>, X, Impl<X>, a non-Sync App) and drives calls on C, Impl<C> (two hops) and "
+         "Impl<App> (hand-written provider calling the function) through the Level-1 machine. Programs over 5 concrete type shapes x sync/async x "
+         "owned / borrowed-from-deps / borrowed-from-argument returns x parameter lists are built with the real macro and run; TLC (Trace_Runtime) "
+         "validates the event logs, the equality of results across the direct / C / Impl<C> / Impl<App> calls, and the availability matrix.",
+         "bounded (<= 2 params quick, sampled; <= 3 thorough); the `&&'static T` spelling is outside the statement's shape list; by-value concrete deps belong to C03",
+         "TLA+ impl-resolution fix-point + call-stack machine checked by TLC; TLC trace validation of event logs and availability matrices from real binaries",
+         "7/C05"),
+ "C14": ("TLC (MC_C14) walks call chains of depth 1..3 for each program kind (fn, mod, entraited trait with Self delegation, static dependency "
+         "inversion; sync/async; innermost work of 0 or 1 allocation; plus a dynamic async_trait control) with Level 2's per-hop allocation cost and "
+         "checks trait-path = direct-path allocations for static delegation. All programs are built with the real macro and run under a counting "
+         "global allocator; TLC (Trace_Runtime) compares the paired allocation counts (same-allocations) and results, and judges the token scan of "
+         "the generated items (no `dyn` / `Box` / alloc-type tokens unless dynamic dispatch was requested); measured counts equal the model's (zero drift).",
+         "depth <= 3; allocation = global-allocator alloc/realloc calls between measurement points after a warm-up call; token scan by the projector",
+         "TLA+ allocation-cost model checked by TLC + TLC trace validation of measured allocation counts and generated-token scans from real binaries",
+         "7/C14"),
  "C06": ("TLC (MC_C06) drives every abstract entraited-trait program (1..3 same-signature methods x parameter lists x sync / async fn / async_trait x "
          "Self / ref / Borrow x generic trait, where clause, generic method, supertrait, borrowed return) through TraitCall -> RunDelegatingBody "
          "(Level 2's call shape) -> provider body -> TraitRet against the guards of the Level-1 machine (Runtime), and compares Level 2's bounds on T "
